@@ -51,6 +51,7 @@ func transferProfile(tier Tier) *explore.Profile {
 			acts := transferMenu(w, o)
 			acts = append(acts, deliveries(w)...)
 			acts = append(acts, freezeMenu(w, o, false)...)
+			acts = append(acts, forgedArrivals(w)...)
 			// metadata updates by the role holder on the copies it kept (no balance changes; they
 			// must not disturb later deliveries and refunds)
 			if held(w, uni.A0, tS1) > 0 {
